@@ -268,6 +268,13 @@ def _mono_mul(m1, m2):
             exp_arg = contrib if exp_arg is None else exp_arg + contrib
         else:
             d[a] = d.get(a, 0) + p
+    # sqrt(x)^(2k) = x^k when x is itself a single atom
+    for a in list(d):
+        if isinstance(a, App) and a.op == "sqrt" and d[a] % 2 == 0 and d[a] != 0:
+            inner = a.args[0].single_atom() if isinstance(a.args[0], Poly) else None
+            if inner is not None and not isinstance(inner, Exp):
+                k = d.pop(a) // 2
+                d[inner] = d.get(inner, 0) + k
     items = [(a, p) for a, p in d.items() if p != 0]
     if exp_arg is not None and not exp_arg.is_zero():
         cv = exp_arg.const_value()
